@@ -243,7 +243,7 @@ int main(int argc, char **argv) {
 		check_one(); printf("fails=%ld\n", h_fails); return h_fails != 0;
 	}
 	int thorough = !strcmp(argv[3], "thorough"); int shard = atoi(argv[4]), nsh = atoi(argv[5]);
-	vs_bounds b = { R->bp + ((thorough && R->threads <= 2 && !R->early && !R->reinit && R->file != F_BIGBLK) ? 1 : 0), R->bt, R->bs };
+	vs_bounds b = { R->bp + ((thorough && R->tier == 0 && R->threads <= 2 && !R->early && !R->reinit && R->file != F_BIGBLK) ? 1 : 0), R->bt, R->bs };	// thorough-only rows keep their listed bounds
 	if (argc > 8) { b.preemptions = atoi(argv[6]); b.timeouts = atoi(argv[7]); b.spurious = atoi(argv[8]); }
 	vs_allow_spurious = b.spurious > 0;
 	if (getenv("VS_MAX_EXEC")) { vs_max_exec = atol(getenv("VS_MAX_EXEC")); vs_dump_path = getenv("VS_DUMP"); vs_resume_path = getenv("VS_RESUME"); }
